@@ -38,7 +38,7 @@ template <class T, size_t... D>
 struct RED {
     static void run(Ctx& c) {
         Rng g = c.rng();
-        Tensor<T, D...> x; constexpr size_t N = Tensor<T, D...>::size(); T* p = x.data();
+        VP_OPERAND((Tensor<T, D...>), x); constexpr size_t N = Tensor<T, D...>::size(); T* p = x.data();
         long runs = 0;
         for (int pat = 0; pat < 6; ++pat) {
             size_t reps = pat == 3 ? 2 * N : 3;
@@ -87,7 +87,7 @@ struct RED {
 template <class T, size_t N>
 void predicates(Ctx& c) {
     Rng g = c.rng();
-    Tensor<bool, N> b; Tensor<T, N> x; std::set<std::string> failed;
+    VP_OPERAND((Tensor<bool, N>), b); VP_OPERAND((Tensor<T, N>), x); std::set<std::string> failed;
     const bool ex = N <= 12; const size_t total = ex ? (size_t(1) << N) : 4000;
     for (size_t mi = 0; mi < total; ++mi) {
         bool any = false, all = true;
